@@ -8,5 +8,6 @@ func init() {
 	alias("C02", "C02.8", "C10.1", "pending output is consumed ring-first")
 	alias("C02", "C02.9", "C10.2", "pending output is routed ring-then-list")
 	alias("C02", "C02.10", "C11.1", "ReadFrom on a connection stores through linkedlist.Buffer.ReadFrom once the ring is full")
+	alias("C11", "C11.6", "C12.7", "a queued segment is owned by the list alone: ReadFrom/PushBack never pool a slice they linked")
 	alias("C10", "C10.6", "C09.6", "the ring half moves data with split copies")
 }
